@@ -53,6 +53,9 @@ def info(out):
 
 def run_task(task):
     import checks.C01 as me
+    if task["params"].get("mode") == "models":
+        from checks import c18_models
+        return c18_models.run_task(task)
     if task["params"].get("mode") == "cas":
         from checks import cas_unit
         return cas_unit.run_task(task)
@@ -61,6 +64,9 @@ def run_task(task):
 
 def replay(rec):
     import checks.C01 as me
+    if rec["params"].get("mode") == "models":
+        from checks import c18_models
+        return c18_models.replay(rec)
     if rec["params"].get("mode") == "cas":
         from checks import cas_unit
         return cas_unit.replay(rec)
@@ -106,6 +112,18 @@ def tasks(tier, seed, selftest=False):
     if not q:
         for cube in common.cubes(24, 4):
             T.append({"prop": PROP, "family": "U3", "label": "U3/cas-unit", "timebox": 600, "seed": seed, "cube": cube, "params": {"mode": "cas"}})
+    # published models (5-321 variables): after each complete strategy, z3 decides over all states that the reported
+    # fixed-point attractors are exactly the fixed points of the model; every minimal trap space carries exactly one seed,
+    # seeds lie in their node's space (checks/c18_models.py)
+    import glob
+    import os
+    mdir = os.path.join(os.environ.get("VERIF_REPO", "/repo"), "models/bbm-bnet-inputs-true")
+    paths = sorted(glob.glob(os.path.join(mdir, "*.bnet")), key=os.path.getsize)
+    paths = paths[:150] if q else paths
+    strats = ["build", "aseeds", "block", "scc", "bfs"]
+    for i in range(0, len(paths), 10 if q else 3):
+        T.append({"prop": PROP, "family": "-", "label": "models/complete-strategies", "timebox": 20 if q else 200, "seed": seed,
+                  "params": {"mode": "models", "models": paths[i:i + (10 if q else 3)], "strats": strats, "cap_s": 20 if q else 150}})
     return T
 
 
@@ -115,6 +133,7 @@ def main(tier, seed, t0, selftest=False):
                          bounds={"strategies": "build, expand_block(), expand_bfs(), expand_dfs(), expand_scc(), expand_attractor_seeds() with default settings",
                                  "families": "U2 exhaustive; D3, B21, P:MAA3+SW2 (5 variables: motif-avoidant core x switch) time-boxed (quick); U3 cubes, B22, CH4, S2C2, S1C3, reversed oracle order (thorough)",
                                  "cas unit": "compute_attractors_symbolic on the (un)expanded root with all states outside the child motifs as candidates, in a symbolic order, seeds_only symbolic; fine mode (U2, D3; U3 cubes in thorough)",
-                                 "outside": "n > 4 (7 for modular families)"},
+                                 "published models": "150 smallest models (quick) / all 210 (thorough) x {build, attractor-seed, block, source-SCC, BFS(<=150 nodes)}: fixed-point attractors reported = all fixed points (z3 over all states), one seed per minimal trap space, seeds inside their node; runs over the time cap or incomplete are skipped and counted",
+                                 "outside": "n > 4 (7 for modular families) for the full one-to-one statement; on the published models complex attractors are not decided"},
                          assumptions=["contract stubs of DESIGN.md §8 validated on every representative",
                                       "compute_attractors_symbolic is a region oracle specified through REACH (its inside is decided by C12/C13)"])
